@@ -9,7 +9,7 @@
 -/
 import Ark.Proofs.Lock
 import Ark.Proofs.Rejects
-import Ark.Generated.Facts
+import Ark.Generated.FactsLock
 
 namespace Ark.Props.C07
 open Ark Ark.Lock
